@@ -536,7 +536,7 @@ Inductive ctor := AllValidations | Builder | BuilderSkip (b : bool) | NoValidati
 Definition builder_default (debug_assertions : bool) : bool := negb debug_assertions.   (* skip flags *)
 Definition ctor_skip (debug_assertions : bool) (k : ctor) : bool :=
   match k with
-  | AllValidations => builder_default debug_assertions
+  | AllValidations => false                 (* always validates (repaired: see known_findings.json, fixed C08) *)
   | Builder => builder_default debug_assertions
   | BuilderSkip b => builder_default debug_assertions || b
   | NoValidations => true
